@@ -17,6 +17,16 @@ from . import detsched as ds
 NT = 6
 
 
+def jobs_of(o):
+    """the callables waiting on a signal, whatever container the library keeps them in (today: a list of (target, error))"""
+    jq = ds.raw(o, "job_queue")
+    if not jq:
+        return []
+    if isinstance(jq, dict):
+        return list(jq.keys())
+    return [(x[0] if isinstance(x, (tuple, list)) and x else x) for x in jq]
+
+
 def gen_scenario(rng, prop="C03"):
     nthreads = rng.randint(1, 3)
     nleaves = rng.randint(2, 4)
@@ -349,8 +359,7 @@ def run_scenario(sc, chooser=None, seed=0, max_steps=30000):
             o = r() if r is not None else None
             if o is None:
                 continue
-            jq = ds.raw(o, "job_queue")
-            line("obs %d go=%d jobs=%d alive=1" % (z, 1 if ds.raw(o, "_go") else 0, len(jq) if jq else 0))
+            line("obs %d go=%d jobs=%d alive=1" % (z, 1 if ds.raw(o, "_go") else 0, len(jobs_of(o))))
             del o
 
     def zid(v):
@@ -465,8 +474,7 @@ def run_scenario(sc, chooser=None, seed=0, max_steps=30000):
                             viol.append("%s: operand s%d of the live, untriggered composite s%d = s%d %s s%d was freed and can never trigger"
                                         % ("C03" if inf["kind"] == "or" else "C04", d, z, inf["ops"][0], "|" if inf["kind"] == "or" else "&", inf["ops"][1]))
             for z, o in live.items():
-                jq = ds.raw(o, "job_queue") or []
-                hooks = sum(1 for (j, e) in jq if isinstance(getattr(j, "target", j), OrSignal))
+                hooks = sum(1 for j in jobs_of(o) if isinstance(getattr(j, "target", j), OrSignal))
                 built_on = sum((1 if info[c]["ops"][0] == z else 0) + (1 if info[c]["ops"][1] == z else 0)
                                for c in live if info[c]["kind"] == "or" and not truth[c])
                 if hooks > built_on:
@@ -484,8 +492,7 @@ def run_scenario(sc, chooser=None, seed=0, max_steps=30000):
                 if c in info and info[c]["kind"] in ("or", "and") and not truth[c]:
                     todo.extend(d for d in info[c]["ops"] if d >= 2)
             for z, o in live.items():
-                jq = ds.raw(o, "job_queue") or []
-                hooks = sum(1 for (j, e) in jq if isinstance(getattr(j, "target", j), OrSignal))
+                hooks = sum(1 for j in jobs_of(o) if isinstance(getattr(j, "target", j), OrSignal))
                 owners = sum((1 if info[c]["ops"][0] == z else 0) + (1 if info[c]["ops"][1] == z else 0)
                              for c in reach if c in info and info[c]["kind"] == "or" and not truth[c])
                 if hooks > owners:
